@@ -56,6 +56,15 @@ for a line that differs from its reference, and never a positive one for an iden
 theorem dist_unit_eq_zero_iff (s t : List α) : dist unit s t = 0 ↔ s = t :=
   Lev.dist_unit_eq_zero_iff s t
 
+/-- The unit-cost edit distance satisfies the triangle inequality (with `dist_self`, `dist_unit_symm` and
+`dist_unit_eq_zero_iff`: it is a metric). -/
+theorem dist_unit_triangle (s t u : List α) : dist unit s u ≤ dist unit s t + dist unit t u := by
+  obtain ⟨al1, hw1, hs1, ht1, hc1⟩ := dist_attained unit s t
+  obtain ⟨al2, hw2, hs2, ht2, hc2⟩ := dist_attained unit t u
+  obtain ⟨hw, hs, ht, hc⟩ := compose_spec al1 al2 hw1 hw2 (by rw [ht1, hs2])
+  have := dist_le_cost unit s u _ hw (by rw [hs, hs1]) (by rw [ht, ht2])
+  omega
+
 /-- The unit-cost distance is at least the difference of the lengths (both directions). -/
 theorem dist_unit_ge_length_diff (s t : List α) :
     s.length ≤ t.length + dist unit s t ∧ t.length ≤ s.length + dist unit s t := by
